@@ -3,6 +3,7 @@ Proof: NV/Props/Properties_C11.v over the table regenerated from isa.c.
 Correspondence: real isa_encode/isa_decode (ASan build of probes/isa_probe.c) vs extracted model, same lines."""
 import os, json
 import vlib
+import c11_text
 
 PATS = {1: [0, 1, 0x7f, 0x80, 0xff],
         2: [0, 1, 0xff, 0x100, 0x7fff, 0x8000, 0xffff, 0x1234],
@@ -83,10 +84,11 @@ def compare(ck, lines, impl_out, model_out, engine):
 
 def run(ck):
     b = ck.build('plain')
-    ck.gen(['gen_isa'])
+    ck.gen(['gen_isa', 'gen_asm'])
     proved = ck.prove()
     ref = ck.nvref('c11')
     probe = ck.probe('isa_probe.c', 'asan')
+    aprobe = ck.probe('asm_probe.c', 'asan')
     rows = table_rows(b)
     lines = gen_cases(ck, rows)
     env = dict(os.environ, ASAN_OPTIONS='detect_leaks=0:abort_on_error=0', UBSAN_OPTIONS='halt_on_error=1')
@@ -121,14 +123,31 @@ def run(ck):
     ck.trusted += ['translator tools/gen/dump_isa.c + gen_isa.py (prints the table through isa_get_info of the current isa.c)',
                    'extraction: ExtrOcamlBasic only (bool, option, unit, list, prod, sumbool, sumor; andb/orb inlined); extract/nvio.ml + c11_driver.ml',
                    'probes/isa_probe.c (operands passed as raw 64-bit patterns through the union; little-endian host assumed)',
-                   'textual assembler/disassembler round trip: see asm_* entries in coverage']
-    ck.assumptions += ['little-endian host; double <-> bit pattern via memcpy as in isa.c',
+                   'translator tools/gen/dump_asm.c + gen_asm.py (#includes assembler.c and disassembler.c, prints their limits, opcode and error constants)',
+                   'float text oracle: Section variables print_f64/parse_f64 of NV.Isa.Asm stand for printf("%.17g")/strtod+errno; the theorems assume '
+                   'parse_f64 (print_f64 v ++ rest) = Some (v, rest) and clean text only for the float patterns the module contains (hypothesis f64_oracle_ok); '
+                   'checked against the libc on boundary and random patterns (coverage.float_oracle_on_libc); in nvref the oracle is OCaml Printf "%.17g" / float_of_string',
+                   'probes/asm_probe.c (modules are built through nvm_add_string/nvm_add_function/nvm_append_code as nvm_deserialize does); '
+                   'tools/props/c11_text.py (generators, judge_rt: equality of strings, function table and code)',
+                   'assembler buffer sizes 64/64/256/4096 (directive, mnemonic, function name, string) are literals inside assembler.c functions: '
+                   'hand-copied into NV.Isa.Asm and exercised at 63/64, 127/128, 255/256, 4095/4096 by the correspondence']
+    c11_text.text_half(ck, b, ref, aprobe)
+    c11_text.replay_known(ck, aprobe)
+    ck.cov['rule'] += ('; TEXT: every .nano under /repo/tests and /repo/examples that nano_virt --emit-nvm compiles + generated programs + synthetic modules '
+                       '(every opcode x boundary operands, jump shapes, label/patch table limits, special string bytes, names, layouts, undecodable code, random modules): '
+                       'real disasm text == model text byte for byte, real asm result == model result, and asm(disasm(m)) == m on strings/functions/code judged on the real tools; '
+                       'hand-written/malformed/mutated texts through asm_assemble vs model; non-trivial = module text contains at least one instruction')
+    ck.assumptions += ['the assembler never sees a line that ends in a lone backslash inside a .string directive (the C then reads past the line; model answers err 99, such mutated inputs are skipped and counted)',
+                       'int32 arithmetic on jump offsets wraps (pos + rel computed mod 2^32), fn_off + fn_len < 2^32 for the modules disassembled',
+                       'little-endian host; double <-> bit pattern via memcpy as in isa.c',
                        'operand values reach isa_encode through the DecodedInstruction union member of their kind (truncation to the kind width happens in the caller)']
 
 
 def replay(ck, d):
-    ck.build('plain'); ck.gen(['gen_isa'])
+    ck.build('plain'); ck.gen(['gen_isa', 'gen_asm'])
     ref = ck.nvref('c11'); probe = ck.probe('isa_probe.c', 'asan')
+    if d.get('rkind') in ('rt', 'asm', 'f64'):
+        return c11_text.replay(ck, d, ref, ck.probe('asm_probe.c', 'asan'))
     l = d.get('input')
     env = dict(os.environ, ASAN_OPTIONS='detect_leaks=0')
     rc, o, e = vlib.sh([probe], input=(l + '\n').encode(), env=env)
